@@ -304,6 +304,12 @@ pub trait Check: Sync {
     fn extra_coverage(&self, _stats: &Stats, _tier: Tier) -> BTreeMap<String, Value> {
         BTreeMap::new()
     }
+    /// true when scenarios carry a "mode" field ("release" | "relchk") and must be executed by
+    /// the harness binary of that build profile (relchk = release + overflow checks +
+    /// debug assertions). Scenario index parity decides the mode: odd = relchk.
+    fn dual_mode(&self) -> bool {
+        false
+    }
     /// true when the tier enumerates a finite space completely (rare)
     fn exhaustive(&self, _tier: Tier) -> bool {
         false
